@@ -81,6 +81,11 @@ def path_function(q):
     return q.startswith("_path.") or (q.startswith("_url.URL.") and q.rsplit(".", 1)[1] in PATH_FUNCS) or q in ("_url.URL.join",)
 
 
+def authority_function(q):
+    """Functions that cut the authority apart, assemble it, or derive its parts lazily (parser, printer helper, the cached split)."""
+    return q.startswith("_parse.") or constructor_function(q) or q.rsplit(".", 1)[-1] == "_cache_netloc"
+
+
 def constructor_function(q):
     return q in ("_url.encode_url", "_url.pre_encoded_url", "_url.URL.__new__", "_url.from_parts", "_url.from_parts_uncached") or \
         q.startswith("_parse.split_")
